@@ -952,11 +952,13 @@ impl<'p> Gen<'p> {
 
     fn wrong_len(&mut self, i: usize) -> usize {
         let d = self.idx[i].dims;
-        let l = match self.r.below(5) {
+        let l = match self.r.below(6) {
             0 => 0,
             1 => d - 1,
             2 => d + 1,
             3 => 4 * d,
+            // the padded length of a binary-quantised vector
+            4 => d.div_ceil(64) * 64,
             _ => self.r.urange(0, 2 * d + 2),
         };
         if l == d {
@@ -993,13 +995,23 @@ impl<'p> Gen<'p> {
             4 => Op::Del(w, self.absent_id(i)),
             5 => {
                 let len = self.wrong_len(i);
+                // the length is refused whatever the other options are: no candidates, an empty set, ids that are
+                // not stored, stored ids
+                let cand = match self.r.below(5) {
+                    0 => Some(vec![]),
+                    1 => Some((0..self.r.urange(1, 4)).map(|_| self.absent_id(i)).collect()),
+                    2 => Some(self.idx[i].items.keys().copied().take(self.r.urange(1, 5)).collect()),
+                    _ => None,
+                };
+                let count = *self.r.pick(&[0usize, 1, 3, 50]);
+                let k = if self.r.chance(0.3) { Some(self.r.urange(1, 40)) } else { None };
                 Op::Nns(
                     w,
                     NnsOpts {
-                        count: 3,
-                        k: None,
+                        count,
+                        k,
                         over: None,
-                        cand: None,
+                        cand,
                         by: By::Vec(self.gen_vec_family(i, fam, len)),
                     },
                 )
